@@ -418,4 +418,71 @@ theorem piTerm_denotes (m : Int) : (piTerm m).1 * 12 = m * ((piTerm m).2 : Int) 
     exact ⟨haux, Nat.one_pos⟩
   · exact ⟨haux, Nat.div_pos (Nat.le_of_dvd (by decide) hg2) hpos⟩
 
+/-! ### XIR, gate / preparation / channel statements -/
+
+theorem xir_val_rt {n : Nat} {v : Val} (h : ValX false 0 v) :
+    (xirReadArg (xirArg false v) >>= convert n) = .ok v := by
+  cases v with
+  | sc s => rfl
+  | arr sh d =>
+    match sh, h with
+    | [], _ => rfl
+    | [m], h =>
+      have : m = d.length := h m rfl
+      subst this
+      rfl
+    | _ :: _ :: _, _ => rfl
+  | sym e => exact absurd h.1 (by decide)
+  | str s => cases h
+  | lst l => cases h
+  | rrt e => cases h
+  | pname i => cases h
+
+theorem xir_vals_rt {n : Nat} : ∀ {l : List Val}, (∀ v ∈ l, ValX false 0 v) →
+    ((l.map (xirArg false)).mapM xirReadArg >>= fun a => a.mapM (convert n)) = .ok l := by
+  intro l
+  induction l with
+  | nil => intro _; rfl
+  | cons a l ih =>
+    intro h
+    have ha := xir_val_rt (n := n) (h a (List.mem_cons_self))
+    have hl := ih (fun x hx => h x (List.mem_cons_of_mem _ hx))
+    simp only [List.map_cons, List.mapM_cons, bind, Except.bind] at ha hl ⊢
+    cases h1 : xirReadArg (xirArg false a) with
+    | error e => rw [h1] at ha; cases ha
+    | ok a' =>
+      rw [h1] at ha
+      simp only at ha
+      cases h2 : (l.map (xirArg false)).mapM xirReadArg with
+      | error e => rw [h2] at hl; cases hl
+      | ok l' =>
+        rw [h2] at hl
+        simp only at hl
+        show List.mapM (convert n) (a' :: l') = Except.ok (a :: l)
+        rw [List.mapM_cons, ha, hl]
+        rfl
+
+/-- a gate / preparation / channel command through `to_xir` and `from_xir`: returned unchanged,
+including its inverse flag -/
+theorem xir_gate_rt {n : Nat} {c : Cmd} (hF : c.cls ≠ "Fouriergate") (hkw : c.kw = [])
+    (hm : isMeasure c.cls = false) (hs : c.select = none) (hd : c.dark = none)
+    (hv : ∀ v ∈ c.pars, ValX false 0 v) : fromXStmt n (toXStmt false c) = .ok c := by
+  obtain ⟨cls, regs, pars, dagger, select, dark, kw⟩ := c
+  simp only at hF hkw hm hs hd hv
+  subst hkw hs hd
+  simp only [toXStmt, hm, Bool.false_eq_true, ↓reduceIte]
+  cases pars with
+  | nil => simp only [List.map_nil, fromXStmt]; exact build_ok_nokw hF
+  | cons a as =>
+    have := xir_vals_rt (n := n) hv
+    simp only [List.map_cons, fromXStmt]
+    simp only [List.map_cons, bind, Except.bind] at this ⊢
+    cases h1 : (xirArg false a :: as.map (xirArg false)).mapM xirReadArg with
+    | error e => rw [h1] at this; cases this
+    | ok l' =>
+      rw [h1] at this
+      simp only at this ⊢
+      rw [this]
+      exact build_ok_nokw hF
+
 end SFV.Io
